@@ -140,7 +140,23 @@ def prepare_sources(pid, unit, scratch):
         report += ['%s: %s' % (rel, r) for r in rep]
         woven_dirs.add(os.path.dirname(rel))
     srcs = []
+    subst = unit.get('subst', {})
+    for rel, pairs in subst.items():
+        if unit.get('kind') != 'B':
+            raise Inconclusive('textual substitution is only allowed in bounded (B) units')
+        text = open(os.path.join(REPO, rel)).read()
+        for a, b, cnt in pairs:
+            if text.count(a) != cnt:
+                raise Inconclusive('substitution %r expected %d times in %s, found %d' % (a, cnt, rel, text.count(a)))
+            text = text.replace(a, b)
+        dst = os.path.join(scratch, 'src', rel)
+        os.makedirs(os.path.dirname(dst), exist_ok=True)
+        open(dst, 'w').write(text)
+        report.append('%s: SUBSTITUTED %s' % (rel, pairs))
     for rel in unit.get('sources', []):
+        if rel in subst:
+            srcs.append(os.path.join(scratch, 'src', rel))
+            continue
         if rel in specs:
             srcs.append(os.path.join(scratch, 'src', rel))
         elif os.path.dirname(rel) in woven_dirs:
@@ -205,6 +221,38 @@ def src_line(loc, cache):
             cache[p] = []
     i = int(ln) - 1
     return cache[p][i].strip() if 0 <= i < len(cache[p]) else ''
+
+
+_clause_cache = {}
+
+
+def clause_names(pid, func):
+    """names of the X("name", cond) entries of '#define POST_<func>(X, ...)' in the property's contract files"""
+    key = (pid, func)
+    if key in _clause_cache:
+        return _clause_cache[key]
+    names = []
+    for d in (os.path.join(VERIF, 'contracts', pid), os.path.join(VERIF, 'contracts', 'common')):
+        if not os.path.isdir(d):
+            continue
+        for fn in sorted(os.listdir(d)):
+            if not fn.endswith(('.c', '.h')):
+                continue
+            text = open(os.path.join(d, fn), errors='replace').read()
+            m = re.search(r'#\s*define\s+POST_' + re.escape(func) + r'\s*\(', text)
+            if not m:
+                continue
+            body = []
+            for line in text[m.start():].split('\n'):
+                body.append(line)
+                if not line.rstrip().endswith('\\'):
+                    break
+            names = re.findall(r'\bX\(\s*"([^"]+)"', '\n'.join(body))
+            break
+        if names:
+            break
+    _clause_cache[key] = names
+    return names
 
 
 def bits_to_hex(bits):
@@ -323,7 +371,7 @@ def run_unit(pid, unit, tier, keep=False, verbose=False):
             defs.append('-DVERIF_DFCC')
         entry = unit.get('entry', 'harness')
         a = os.path.join(scratch, 'a.gb')
-        cmd = ['goto-cc'] + defs + include_flags(pid, incs) + ['--function', entry, os.path.join(cdir, unit['harness'])] + srcs + ['-o', a]
+        cmd = ['goto-cc'] + defs + include_flags(pid, incs) + ['--function', entry, os.path.join(cdir, unit['harness'])] + srcs + [os.path.join(VERIF, x) for x in unit.get('cbmc_sources', [])] + ['-o', a]
         res['cmds'].append(' '.join(cmd))
         rc, out, _ = run(cmd, scratch, 300)
         if rc != 0:
@@ -396,13 +444,14 @@ def run_unit(pid, unit, tier, keep=False, verbose=False):
                 tail = open(outj).read()[-1500:]
             except Exception:
                 pass
-            raise Inconclusive('cbmc gave no result (rc=%s) %s %s %s' % (rc, msgs, err[-500:], tail))
+            raise Inconclusive('cbmc gave no result (rc=%s) %s %s %s' % (rc, msgs, err[-300:], re.sub(r'\s+', ' ', tail)[-300:]))
         if 'ignoring' in msgs:
             raise Inconclusive('cbmc ignored a quantifier: ' + msgs)
         cache = {}
         fails = []
         n_ob = n_ok = 0
         covers = cov_hit = 0
+        undecided = 0
         canary = None
         for r in results:
             desc = r.get('description', '')
@@ -420,8 +469,16 @@ def run_unit(pid, unit, tier, keep=False, verbose=False):
             n_ob += 1
             if st == 'SUCCESS':
                 n_ok += 1
+            elif st != 'FAILURE':
+                undecided += 1
             else:
                 loc = r.get('sourceLocation', {})
+                mm = re.match(r'^(\w+)\.postcondition\.(\d+)$', r.get('property') or '')
+                if mm:
+                    cn = clause_names(pid, mm.group(1))
+                    i = int(mm.group(2)) - 1
+                    if 0 <= i < len(cn):
+                        desc = 'ensures: %s (%s)' % (cn[i], desc)
                 fails.append({'property': r.get('property'), 'description': desc, 'status': st,
                               'file': loc.get('file'), 'line': loc.get('line'), 'function': loc.get('function'),
                               'text': src_line(loc, cache),
@@ -429,20 +486,23 @@ def run_unit(pid, unit, tier, keep=False, verbose=False):
         res.update(obligations=n_ob, discharged=n_ok, covers_expected=covers, covers_hit=cov_hit, canary_ok=canary)
         res['samples'] = [{'obligation': r.get('property'), 'description': r.get('description'), 'status': r.get('status')}
                           for r in results[:: max(1, len(results) // 4)][:4]]
+        if undecided:
+            raise Inconclusive('%d obligations left undecided by the solver (status neither SUCCESS nor FAILURE)' % undecided)
         if fails:
             res['status'] = 'fail'
             # traces for the first few failed obligations
-            for f in fails[:3]:
-                outt = os.path.join(scratch, 'trace.json')
-                cmdt = ['cbmc', cur] + flags + ['--json-ui', '--trace', '--property', f['property']]
-                rc2, _, _ = run(cmdt, scratch, tmo, outfile=outt)
-                try:
-                    rr, _ = parse_cbmc_json(outt)
-                    for r in rr or []:
-                        if r.get('property') == f['property'] and r.get('trace'):
-                            f['inputs'], f['inputs_shown'] = extract_inputs(r['trace'])
-                except Exception as e:  # trace is a convenience only
-                    f['trace_error'] = str(e)
+            outt = os.path.join(scratch, 'trace.json')
+            cmdt = ['cbmc', cur] + flags + ['--json-ui', '--trace']
+            run(cmdt, scratch, tmo, outfile=outt)
+            try:
+                rr, _ = parse_cbmc_json(outt)
+                want = {f['property']: f for f in fails[:6]}
+                for r in rr or []:
+                    f = want.get(r.get('property'))
+                    if f is not None and r.get('trace'):
+                        f['inputs'], f['inputs_shown'] = extract_inputs(r['trace'])
+            except Exception as e:  # trace is a convenience only
+                res['trace_error'] = str(e)
             res['failures'] = fails
         else:
             res['status'] = 'pass'
